@@ -123,6 +123,24 @@ DATUMS += [("e", "?\\" + chr(c)) for c in range(33, 127) if chr(c) in "()[];\"'`
 CONTEXTS = ["@", "(@ x)", "(x . @)", "#(x @)", "(x @)", "[x @]", "#(@)"]
 
 
+def big_tokens():
+    """Thorough tier: the token corpus plus 500 tokens spliced from a token alphabet with a fixed seed."""
+    import random
+    rng = random.Random(20261003)
+    BSL = chr(92)
+    pieces = ["1", "0", "9", "e", "E", "x", ".", "+", "-", "/", ":", "#", "#:", "a", "b", "nil", "t", "?", BSL, "%", "@", "'", "\u03bb", "\u00e9", "..", "#x", "#b",
+              "#" + BSL, "f", "F", "_", "!", "<", "=", "#t", "#f", "inf", "nan", "|"]
+    base = [t.replace(BSL + BSL, BSL) for t in TOKENS]
+    seen = set(base)
+    extra = []
+    while len(extra) < 500:
+        t = "".join(rng.choice(pieces) for _ in range(rng.choice([2, 2, 3, 3, 4, 5])))
+        if t not in seen and not t.startswith(("'", "|")):
+            seen.add(t)
+            extra.append(t)
+    return base + extra
+
+
 def main():
     parts = []
     parts.append("""------------------------------- MODULE Corpus -------------------------------
@@ -139,21 +157,7 @@ EXTENDS Naturals, Sequences
     parts.append("StrAlphabet == {" + ", ".join(str(c) for c in STR_ALPHABET) + "}\n")
     parts.append("ByteVecCorpus == {" + ", ".join("<<" + ", ".join(map(str, b)) + ">>" for b in BYTEVECS) + "}\n")
     parts.append(tseq("TokenCorpus", [t.replace("\\\\", "\\") for t in TOKENS], bs, "C08 token corpus (bytes)"))
-    # thorough tier of C08: the corpus plus tokens spliced from a token alphabet with a fixed seed
-    import random
-    rng = random.Random(20261003)
-    BSL = chr(92)
-    pieces = ["1", "0", "9", "e", "E", "x", ".", "+", "-", "/", ":", "#", "#:", "a", "b", "nil", "t", "?", BSL, "%", "@", "'", "\u03bb", "\u00e9", "..", "#x", "#b",
-              "#" + BSL, "f", "F", "_", "!", "<", "=", "#t", "#f", "inf", "nan", "|"]
-    base = [t.replace(BSL + BSL, BSL) for t in TOKENS]
-    seen = set(base)
-    extra = []
-    while len(extra) < 500:
-        t = "".join(rng.choice(pieces) for _ in range(rng.choice([2, 2, 3, 3, 4, 5])))
-        if t not in seen and not t.startswith(("'", "|")):
-            seen.add(t)
-            extra.append(t)
-    parts.append(tseq("TokenCorpusBig", base + extra, bs, "C08 thorough tier: the corpus and 500 spliced tokens"))
+    parts.append(tseq("TokenCorpusBig", big_tokens(), bs, "C08 thorough tier: the corpus and 500 spliced tokens"))
     dat = [(d, t.replace("\\\\", "\\").replace("\\n", "\n").replace("\\t", "\t").replace("\\r", "\r") if False else (d, t)) for d, t in DATUMS]
     def unesc(t):
         # python-level escapes were doubled in the table above: \\\\ -> one backslash
